@@ -1,8 +1,502 @@
-//! C15 — generator and driver of the real API.
+//! C15 — log-space probability arithmetic.  All floats are printed with `{:e}` (shortest round-trip decimal form,
+//! `inf`, `-inf`, `NaN`) and parsed back by the driver; operands in the input line are parsed by `exec` with
+//! `str::parse::<f64>` (exact round trip of what `gen` printed).
+//!
+//! ```text
+//! add <a> <b>            => <r>          LogProb(a).ln_add_exp(LogProb(b))
+//! sum <x,…|->            => <r>          LogProb::ln_sum_exp
+//! cumsum <x,…|->         => <r,…|->      LogProb::ln_cumsum_exp
+//! sub <a> <b>            => <r>          a.ln_sub_exp(b)           (a >= b)
+//! 1m <a>                 => <r>          a.ln_one_minus_exp()      (a <= 0)
+//! trap <dens> <a> <b> <n> => <r>         ln_trapezoidal_integrate_exp
+//! simp <dens> <a> <b> <n> => <r>         ln_simpsons_integrate_exp (n odd)
+//! grid <dens> <g,…>      => <r>          ln_trapezoidal_integrate_grid_exp
+//! conv <chain> <v>       => <r>          chain of From conversions over p (Prob), l (LogProb), q (PHREDProb)
+//! checked <v>            => ok:<v> | err Prob::checked
+//! fexp <x>               => <r>          FastExp::fastexp
+//! consts                 => <l2q> <q2l>  PHREDProb::from(LogProb(1.0)), LogProb::from(PHREDProb(1.0)) = the two scale factors
+//! ```
+//! densities: `const:<ln c>` | `poly:<c0>:<c1>:<c2>` (c0 + c1 x + c2 x², coefficients >= 0, used on x >= 0) |
+//! `gauss:<mu>:<sigma>` | `expd:<lambda>` (λ e^{-λx}) | `box:<lo>:<hi>:<ln c>` (c on [lo,hi], 0 outside).
 use crate::util::*;
+use bio::stats::{LogProb, PHREDProb, Prob};
+use bio::utils::FastExp;
 
-pub fn gen(_tier: &str, _rng: &mut Rng, _out: &mut Vec<String>) {}
+fn fe(x: f64) -> String {
+    format!("{:e}", x)
+}
 
-pub fn exec(_toks: &[&str]) -> Result<String, String> {
-    Err("unimplemented".into())
+fn pf(s: &str) -> Result<f64, String> {
+    match s {
+        "inf" => Ok(f64::INFINITY),
+        "-inf" => Ok(f64::NEG_INFINITY),
+        "NaN" => Ok(f64::NAN),
+        _ => {
+            if s.is_empty() || !s.bytes().all(|c| c.is_ascii_digit() || c == b'-' || c == b'.' || c == b'e') {
+                return Err(format!("bad float {}", s));
+            }
+            s.parse::<f64>().map_err(|_| format!("bad float {}", s))
+        }
+    }
+}
+
+fn pfl(s: &str) -> Result<Vec<f64>, String> {
+    split_list(s, ',').into_iter().map(pf).collect()
+}
+
+fn fl(xs: &[f64]) -> String {
+    if xs.is_empty() {
+        "-".into()
+    } else {
+        xs.iter().map(|x| fe(*x)).collect::<Vec<_>>().join(",")
+    }
+}
+
+#[derive(Clone, Debug)]
+enum Dens {
+    Const(f64),
+    Poly(f64, f64, f64),
+    Gauss(f64, f64),
+    Expd(f64),
+    Box(f64, f64, f64),
+}
+
+impl Dens {
+    fn parse(s: &str) -> Result<Dens, String> {
+        let p: Vec<&str> = s.split(':').collect();
+        let num = |i: usize| -> Result<f64, String> { pf(p.get(i).ok_or("density arity")?) };
+        let d = match p[0] {
+            "const" if p.len() == 2 => Dens::Const(num(1)?),
+            "poly" if p.len() == 4 => Dens::Poly(num(1)?, num(2)?, num(3)?),
+            "gauss" if p.len() == 3 => Dens::Gauss(num(1)?, num(2)?),
+            "expd" if p.len() == 2 => Dens::Expd(num(1)?),
+            "box" if p.len() == 4 => Dens::Box(num(1)?, num(2)?, num(3)?),
+            _ => return Err("unknown density".into()),
+        };
+        let ok = match d {
+            Dens::Const(c) => c <= 0.0 || c.is_finite(),
+            Dens::Poly(a, b, c) => a >= 0.0 && b >= 0.0 && c >= 0.0 && a.is_finite() && b.is_finite() && c.is_finite(),
+            Dens::Gauss(m, s) => m.is_finite() && s > 0.0 && s.is_finite(),
+            Dens::Expd(l) => l > 0.0 && l.is_finite(),
+            Dens::Box(lo, hi, c) => lo.is_finite() && hi.is_finite() && !c.is_nan() && c < f64::INFINITY,
+        };
+        if ok {
+            Ok(d)
+        } else {
+            Err("density parameters".into())
+        }
+    }
+    fn show(&self) -> String {
+        match self {
+            Dens::Const(c) => format!("const:{}", fe(*c)),
+            Dens::Poly(a, b, c) => format!("poly:{}:{}:{}", fe(*a), fe(*b), fe(*c)),
+            Dens::Gauss(m, s) => format!("gauss:{}:{}", fe(*m), fe(*s)),
+            Dens::Expd(l) => format!("expd:{}", fe(*l)),
+            Dens::Box(lo, hi, c) => format!("box:{}:{}:{}", fe(*lo), fe(*hi), fe(*c)),
+        }
+    }
+    /// ln f(x), computed in log space where that matters
+    fn ln(&self, x: f64) -> f64 {
+        match self {
+            Dens::Const(c) => *c,
+            Dens::Poly(a, b, c) => (a + b * x + c * x * x).ln(),
+            Dens::Gauss(m, s) => {
+                let z = (x - m) / s;
+                -0.5 * z * z - (s * (2.0 * std::f64::consts::PI).sqrt()).ln()
+            }
+            Dens::Expd(l) => l.ln() - l * x,
+            Dens::Box(lo, hi, c) => {
+                if x >= *lo && x <= *hi {
+                    *c
+                } else {
+                    f64::NEG_INFINITY
+                }
+            }
+        }
+    }
+    fn needs_nonneg_x(&self) -> bool {
+        matches!(self, Dens::Poly(..))
+    }
+}
+
+// ------------------------------------------------------------------------------------------------ generators
+
+/// a log-space probability from one of the corner classes
+fn lp(rng: &mut Rng) -> f64 {
+    let u = |rng: &mut Rng| (rng.next() >> 11) as f64 / (1u64 << 53) as f64; // [0,1)
+    match rng.below(20) {
+        0 | 1 => f64::NEG_INFINITY,
+        2 => 0.0,
+        3 => *rng.pick(&[-1e-300, -1e-20, -1e-12, -1e-9, -1e-6, -5e-324, -0.0]),
+        4 => *rng.pick(&[-0.6929, -0.693, -0.6931, -0.6930000000000001, -0.6929999999999999, -std::f64::consts::LN_2, -0.69, -0.7]),
+        5 | 6 => -u(rng),
+        7 | 8 => -10.0 * u(rng),
+        9 => -50.0 * u(rng),
+        10 | 11 => -700.0 * u(rng),
+        12 => -700.0 - 45.0 * u(rng),
+        13 => *rng.pick(&[-1000.0, -1e5, -1e300, -745.2, -708.4, -499.9, -500.0, -500.1]),
+        14 | 15 => {
+            let p = u(rng);
+            if p == 0.0 {
+                f64::NEG_INFINITY
+            } else {
+                p.ln()
+            }
+        }
+        16 => (u(rng) * 1e-300).max(5e-324).ln(),
+        17 => -(rng.below(40) as f64),
+        _ => -30.0 * u(rng) * u(rng),
+    }
+}
+
+/// a second operand related to `a`: equal, near, at the fastexp cut-off distance, far
+fn related(rng: &mut Rng, a: f64) -> f64 {
+    if a == f64::NEG_INFINITY {
+        return lp(rng);
+    }
+    let u = (rng.next() >> 11) as f64 / (1u64 << 53) as f64;
+    let b = match rng.below(10) {
+        0 | 1 => a,
+        2 => a - 1e-9 * u,
+        3 => a - *rng.pick(&[0.6929, 0.693, 0.6931, 0.6932, 0.5, 1.0]),
+        4 => a - *rng.pick(&[499.0, 499.999, 500.0, 500.001, 501.0]),
+        5 => a - 700.0 - 300.0 * u,
+        6 => a - 40.0 * u,
+        7 => a - u,
+        8 => a - 1e-15,
+        _ => return lp(rng),
+    };
+    b
+}
+
+fn lp_list(rng: &mut Rng) -> Vec<f64> {
+    let n = match rng.below(10) {
+        0 => 0,
+        1 => 1,
+        2 => 2,
+        3 => 50,
+        _ => rng.below(51),
+    };
+    let base = lp(rng);
+    let style = rng.below(6);
+    (0..n)
+        .map(|_| match style {
+            0 => lp(rng),
+            1 => {
+                if rng.chance(1, 3) {
+                    f64::NEG_INFINITY
+                } else {
+                    lp(rng)
+                }
+            }
+            2 => base, // all equal (several maxima)
+            3 => related(rng, base),
+            4 => {
+                if rng.chance(1, 2) {
+                    base
+                } else {
+                    f64::NEG_INFINITY
+                }
+            }
+            _ => {
+                let r = related(rng, base);
+                if r > 0.0 {
+                    0.0
+                } else {
+                    r
+                }
+            }
+        })
+        .map(|x| if x > 0.0 { 0.0 } else { x })
+        .collect()
+}
+
+fn unit(rng: &mut Rng) -> f64 {
+    (rng.next() >> 11) as f64 / (1u64 << 53) as f64
+}
+
+fn density(rng: &mut Rng) -> (Dens, f64, f64) {
+    match rng.below(8) {
+        0 => {
+            let c = *rng.pick(&[0.1f64.ln(), 0.0, -30.0, -800.0, f64::NEG_INFINITY]);
+            let a = (unit(rng) * 20.0 - 10.0).round();
+            (Dens::Const(c), a, a + 1.0 + (unit(rng) * 10.0).round())
+        }
+        1 | 2 => {
+            let c0 = if rng.chance(1, 3) { 0.0 } else { (unit(rng) * 4.0 * 8.0).round() / 8.0 };
+            let c1 = if rng.chance(1, 3) { 0.0 } else { (unit(rng) * 4.0 * 8.0).round() / 8.0 };
+            let c2 = if rng.chance(1, 3) { 0.0 } else { (unit(rng) * 4.0 * 8.0).round() / 8.0 };
+            let a = (unit(rng) * 3.0 * 4.0).round() / 4.0;
+            (Dens::Poly(c0, c1, c2), a, a + 0.25 + (unit(rng) * 16.0).round() / 4.0)
+        }
+        3 | 4 => {
+            let mu = (unit(rng) * 10.0 - 5.0).round();
+            let s = *rng.pick(&[0.01, 0.1, 0.5, 1.0, 3.0]);
+            let w = *rng.pick(&[0.5, 2.0, 6.0, 40.0]);
+            let off = *rng.pick(&[0.0, 0.0, 1.0, -3.0, 30.0]);
+            (Dens::Gauss(mu, s), mu + off * s - w * s, mu + off * s + w * s)
+        }
+        5 => {
+            let l = *rng.pick(&[0.1, 1.0, 7.0, 70.0]);
+            let b = *rng.pick(&[1.0, 10.0, 100.0]);
+            (Dens::Expd(l), 0.0, b)
+        }
+        _ => {
+            let lo = (unit(rng) * 4.0).round();
+            let hi = lo + (unit(rng) * 4.0).round();
+            let c = *rng.pick(&[0.0, -1.0, -300.0]);
+            let a = lo - (unit(rng) * 3.0).round();
+            (Dens::Box(lo, hi, c), a, hi + (unit(rng) * 3.0).round() + if a == hi { 1.0 } else { 0.0 })
+        }
+    }
+}
+
+const CHAINS: [&str; 16] = [
+    "pl", "lp", "pq", "qp", "lq", "ql", "plp", "pqp", "lql", "qlq", "plqp", "pqlp", "lpl", "lqpl", "qpq", "qplq",
+];
+
+fn prob(rng: &mut Rng) -> f64 {
+    match rng.below(12) {
+        0 => 0.0,
+        1 => 1.0,
+        2 => *rng.pick(&[5e-324, 1e-310, 2.2250738585072014e-308, 1e-300, 1e-250, 1e-218, 1e-217, 7.1e-218, 7.2e-218, 1e-200, 1e-100]),
+        3 => *rng.pick(&[0.5, 0.25, 0.1, 0.9, 0.999999, 0.9999999999999999, 1e-5, 1e-15]),
+        4 | 5 => unit(rng),
+        6 => unit(rng) * 1e-3,
+        7 => unit(rng) * 1e-30,
+        8 => 1.0 - unit(rng) * 1e-6,
+        9 => (-(unit(rng)) * 490.0).exp(),
+        10 => (-(unit(rng)) * 700.0).exp(),
+        _ => unit(rng) * unit(rng),
+    }
+}
+
+pub fn gen(tier: &str, rng: &mut Rng, out: &mut Vec<String>) {
+    let n = if tier == "thorough" { 1_000_000 } else { 20_000 };
+    out.push("consts".to_string());
+    for v in [
+        "0e0", "-0e0", "1e0", "5e-324", "-5e-324", "1.0000000000000002e0", "9.999999999999999e-1", "5e-1", "2e0", "-1e0",
+        "inf", "-inf", "NaN", "1e-300", "-1e-300",
+    ] {
+        out.push(format!("checked {}", v));
+    }
+    for i in 0..n {
+        let line = match i % 20 {
+            0..=3 => {
+                let a = lp(rng);
+                let b = if rng.chance(2, 3) { related(rng, a) } else { lp(rng) };
+                let (a, b) = if rng.chance(1, 2) { (a, b) } else { (b, a) };
+                format!("add {} {}", fe(a.min(0.0)), fe(b.min(0.0)))
+            }
+            4..=6 => format!("sum {}", fl(&lp_list(rng))),
+            7 | 8 => format!("cumsum {}", fl(&lp_list(rng))),
+            9 | 10 => {
+                let a = lp(rng);
+                let b = if rng.chance(3, 4) { related(rng, a) } else { lp(rng) };
+                let (a, b) = if a >= b { (a, b) } else { (b, a) };
+                format!("sub {} {}", fe(a.min(0.0)), fe(b.min(0.0)))
+            }
+            11 | 12 => format!("1m {}", fe(lp(rng).min(0.0))),
+            13 => {
+                let (d, a, b) = density(rng);
+                let n = *rng.pick(&[3usize, 4, 5, 10, 11, 101, 2]);
+                format!("trap {} {} {} {}", d.show(), fe(a), fe(b), n)
+            }
+            14 => {
+                let (d, a, b) = density(rng);
+                let n = *rng.pick(&[3usize, 5, 7, 11, 101]);
+                format!("simp {} {} {} {}", d.show(), fe(a), fe(b), n)
+            }
+            15 => {
+                let (d, a, b) = density(rng);
+                let k = *rng.pick(&[3usize, 4, 5, 11, 30, 2, 1]);
+                // increasing, non-uniform, occasionally with a repeated point
+                let mut cuts: Vec<f64> = (0..k).map(|_| (unit(rng) * 64.0).round() / 64.0).collect();
+                cuts.sort_by(|x, y| x.partial_cmp(y).unwrap());
+                let g: Vec<f64> = cuts.iter().map(|c| a + (b - a) * c).collect();
+                format!("grid {} {}", d.show(), fl(&g))
+            }
+            16 | 17 => {
+                let c = *rng.pick(&CHAINS);
+                let v = match c.as_bytes()[0] {
+                    b'p' => prob(rng),
+                    b'l' => lp(rng).min(0.0),
+                    _ => {
+                        // PHRED value
+                        match rng.below(6) {
+                            0 => 0.0,
+                            1 => f64::INFINITY,
+                            2 => (unit(rng) * 93.0).round(),
+                            3 => unit(rng) * 3000.0,
+                            4 => unit(rng) * 10.0,
+                            _ => unit(rng) * 100.0,
+                        }
+                    }
+                };
+                format!("conv {} {}", c, fe(v))
+            }
+            18 => {
+                let v = match rng.below(6) {
+                    0 => unit(rng),
+                    1 => 1.0 + unit(rng) * 1e-6,
+                    2 => -unit(rng) * 1e-6,
+                    3 => unit(rng) * 3.0 - 1.0,
+                    4 => 1.0 - unit(rng) * 1e-12,
+                    _ => unit(rng) * 1e-300,
+                };
+                format!("checked {}", fe(v))
+            }
+            _ => {
+                let x = match rng.below(6) {
+                    0 => -unit(rng),
+                    1 => -unit(rng) * 30.0,
+                    2 => -unit(rng) * 499.9,
+                    3 => -(rng.below(500) as f64) * std::f64::consts::LN_2 - unit(rng) * 1e-6,
+                    4 => -500.0 - unit(rng) * 300.0,
+                    _ => *rng.pick(&[0.0, -0.0, -1e-300, -1e-9, -499.99, -500.0, -500.01, f64::NEG_INFINITY]),
+                };
+                format!("fexp {}", fe(x))
+            }
+        };
+        out.push(line);
+    }
+}
+
+// ------------------------------------------------------------------------------------------------ exec
+
+fn conv(chain: &str, v: f64) -> Result<f64, String> {
+    let b = chain.as_bytes();
+    if b.len() < 2 || !b.iter().all(|c| matches!(c, b'p' | b'l' | b'q')) {
+        return Err("bad chain".into());
+    }
+    #[derive(Clone, Copy)]
+    enum V {
+        P(Prob),
+        L(LogProb),
+        Q(PHREDProb),
+    }
+    let mut cur = match b[0] {
+        b'p' => V::P(Prob(v)),
+        b'l' => V::L(LogProb(v)),
+        _ => V::Q(PHREDProb(v)),
+    };
+    for &t in &b[1..] {
+        cur = match (cur, t) {
+            (V::P(p), b'l') => V::L(LogProb::from(p)),
+            (V::P(p), b'q') => V::Q(PHREDProb::from(p)),
+            (V::L(l), b'p') => V::P(Prob::from(l)),
+            (V::L(l), b'q') => V::Q(PHREDProb::from(l)),
+            (V::Q(q), b'p') => V::P(Prob::from(q)),
+            (V::Q(q), b'l') => V::L(LogProb::from(q)),
+            _ => return Err("identity step in chain".into()),
+        };
+    }
+    Ok(match cur {
+        V::P(p) => *p,
+        V::L(l) => *l,
+        V::Q(q) => *q,
+    })
+}
+
+pub fn exec(toks: &[&str]) -> Result<String, String> {
+    if toks.is_empty() {
+        return Err("arity".into());
+    }
+    let valid_lp = |x: f64| -> Result<f64, String> {
+        if x.is_nan() || x > 0.0 {
+            Err("not a log-probability".into())
+        } else {
+            Ok(x)
+        }
+    };
+    match (toks[0], toks.len()) {
+        ("add", 3) => {
+            let a = valid_lp(pf(toks[1])?)?;
+            let b = valid_lp(pf(toks[2])?)?;
+            Ok(fe(*LogProb(a).ln_add_exp(LogProb(b))))
+        }
+        ("sum", 2) => {
+            let xs: Vec<LogProb> = pfl(toks[1])?.into_iter().map(|x| valid_lp(x).map(LogProb)).collect::<Result<_, _>>()?;
+            Ok(fe(*LogProb::ln_sum_exp(&xs)))
+        }
+        ("cumsum", 2) => {
+            let xs: Vec<LogProb> = pfl(toks[1])?.into_iter().map(|x| valid_lp(x).map(LogProb)).collect::<Result<_, _>>()?;
+            let r: Vec<f64> = LogProb::ln_cumsum_exp(xs).map(|x| *x).collect();
+            Ok(fl(&r))
+        }
+        ("sub", 3) => {
+            let a = valid_lp(pf(toks[1])?)?;
+            let b = valid_lp(pf(toks[2])?)?;
+            if !(a >= b) {
+                return Err("a < b".into());
+            }
+            Ok(fe(*LogProb(a).ln_sub_exp(LogProb(b))))
+        }
+        ("1m", 2) => {
+            let a = valid_lp(pf(toks[1])?)?;
+            Ok(fe(*LogProb(a).ln_one_minus_exp()))
+        }
+        ("trap", 5) | ("simp", 5) => {
+            let d = Dens::parse(toks[1])?;
+            let a = pf(toks[2])?;
+            let b = pf(toks[3])?;
+            let n: usize = parse(toks[4])?;
+            if !(a.is_finite() && b.is_finite() && a < b) || n < 2 || n > 2001 {
+                return Err("bad interval".into());
+            }
+            if d.needs_nonneg_x() && a < 0.0 {
+                return Err("polynomial density needs x >= 0".into());
+            }
+            let f = |_i: usize, x: f64| LogProb(d.ln(x));
+            if toks[0] == "trap" {
+                Ok(fe(*LogProb::ln_trapezoidal_integrate_exp(f, a, b, n)))
+            } else {
+                if n % 2 != 1 || n < 3 {
+                    return Err("simpson needs odd n >= 3".into());
+                }
+                Ok(fe(*LogProb::ln_simpsons_integrate_exp(f, a, b, n)))
+            }
+        }
+        ("grid", 3) => {
+            let d = Dens::parse(toks[1])?;
+            let g = pfl(toks[2])?;
+            if g.is_empty() || g.iter().any(|x| !x.is_finite()) || g.windows(2).any(|w| !(w[0] <= w[1])) {
+                return Err("grid must be finite and non-decreasing".into());
+            }
+            if d.needs_nonneg_x() && g[0] < 0.0 {
+                return Err("polynomial density needs x >= 0".into());
+            }
+            let f = |_i: usize, x: f64| LogProb(d.ln(x));
+            Ok(fe(*LogProb::ln_trapezoidal_integrate_grid_exp(f, &g)))
+        }
+        ("conv", 3) => {
+            let v = pf(toks[2])?;
+            let ok = match toks[1].as_bytes().first() {
+                Some(b'p') => (0.0..=1.0).contains(&v),
+                Some(b'l') => v <= 0.0,
+                Some(b'q') => v >= 0.0,
+                _ => false,
+            };
+            if !ok {
+                return Err("operand outside the domain of its scale".into());
+            }
+            Ok(fe(conv(toks[1], v)?))
+        }
+        ("checked", 2) => {
+            let v = pf(toks[1])?;
+            Ok(match Prob::checked(v) {
+                Ok(p) => format!("ok:{}", fe(*p)),
+                Err(_) => "err".to_string(),
+            })
+        }
+        ("fexp", 2) => {
+            let x = pf(toks[1])?;
+            if x.is_nan() || x > 0.0 {
+                return Err("fexp operand must be <= 0".into());
+            }
+            Ok(fe(x.fastexp()))
+        }
+        ("consts", 1) => Ok(format!("{} {}", fe(*PHREDProb::from(LogProb(1.0))), fe(*LogProb::from(PHREDProb(1.0))))),
+        _ => Err("unknown op".into()),
+    }
 }
